@@ -25,6 +25,7 @@ macro_rules! dispatch {
       "C14" => $f::<props::c14::C14>($($arg),*),
       "C15" => $f::<props::c15::C15>($($arg),*),
       "C16" => $f::<props::c16::C16>($($arg),*),
+      "C18" => $f::<props::c18::C18>($($arg),*),
       other => { eprintln!("unknown property {}", other); std::process::exit(3) }
     }
   };
